@@ -177,6 +177,10 @@ FIXED = [
     ("C01", "dd9da4c", "`function g(d){ if(d>40) return 0; for(var i=0;i<30;i++) eval(\"g(\"+(d+1)+\")\"); return 0 } g(0)` was never stopped by time_limit=0.5: nested interpreters count instructions from zero and none reached the polling period (found by the author of seed C01-h)"),
     ("C13", "1214c41", "`[[1][0]]` was [[1], [0]], `[[] + 1]` was [[], 1] and `[1, [2].length]` a syntax error: the iterative parser of nested array literals stored an inner array as an element as soon as its bracket closed"),
     ("C01", "34b30a0", "after a host function called by the script had evaluated code on the same context, the outer evaluation had lost its interpreter (Context.eval cleared the pointer): later eval()/Function/RegExp started a clock of their own and the script ran 0.9 s at time_limit=0.5 (found by the author of seed C01-h)"),
+    ("C05", "3bc9911", "`x = 5; var x; x` was undefined, `var t;` in a loop body reset t on every trip, and `ctx.set(\"x\", 5); ctx.eval(\"var x; x\")` lost the embedder's value: a var declaration without initialiser stored undefined (first reported by the author of seed C11-g)"),
+    ("C13", "16b493c", "`1.e3` was undefined and `5..toString()` a syntax error (the decimal point was only taken when a digit followed), and `3in x`, `0x1g` were accepted (found by the author of seed C13-g)"),
+    ("C13", "fbd50ce", "`new a.b()` was parsed as `(new a).b()` and failed with 'not a constructor': the callee of new was a primary expression only (found by the author of seed C13-g)"),
+    ("C08", "da3ae7d", "`function A(){ return function(){} }; typeof new A()` was 'object': a function returned by a constructor was not counted as an object and the new instance was kept"),
     ("C20", "33cb6fa", "`'baa'.search(/a/y)` was 1, `'baa'.match(/a/y)` matched, `'aaba'.replace(/a/gy,'x')` was 'xxbx' (a sticky regex matches only where it starts); `var r=/a/g; r.lastIndex=1; 'aaaa'.match(r); r.lastIndex` stayed 1 and a failed global match or replace left lastIndex as it was (global match/replace start at 0 and leave 0); a sticky non-global match/replace did not advance or reset lastIndex"),
 ]
 
